@@ -35,7 +35,7 @@ Definition cell_segment (W spacing : Q) (c : fcell) (seg : list (option Q)) : li
       let width := w + fc_bp c - spacing * (qnat (fc_span c) - 1) - osum seg in
       match nnone seg with
       | O => seg
-      | k => fill (width / qnat k) seg
+      | k => fill (Qmax 0 width / qnat k) seg        (* max(0, width) / len(columns_without_width) *)
       end
   end.
 Fixpoint cells_loop (W spacing : Q) (cells : list fcell) (cw : list (option Q)) : option (list (option Q)) :=
@@ -152,7 +152,9 @@ Definition out_close (tol : Q) (a b : option (Q * list Q)) : bool :=
 (* decidable spec for fixed layout outputs (CSS 2.1 17.5.2.1), written on the outputs only:
    - the sum; the table is never narrowed;
    - every column with a declared width has that width plus a common bonus; every first-row cell with a width,
-     one of whose columns has no declared width, has its columns + inner spacings = its border box + span * bonus;
+     one of whose columns has no declared width, has its columns + inner spacings = its border box (or what the
+     declared widths of its columns already take, if that is more) + span * bonus;
+   - no column is negative when no declared width is;
    - the bonus is >= 0, and is 0 unless the table keeps its width *)
 Fixpoint cell_bonuses (W spacing : Q) (init : list (option Q)) (ws : list Q) (cells : list fcell) (off : nat) : list Q :=
   match cells with
@@ -163,7 +165,8 @@ Fixpoint cell_bonuses (W spacing : Q) (init : list (option Q)) (ws : list Q) (ce
       let segw := firstn span (skipn off ws) in
       (match resolve (fc_width c) W with
        | Some w => if (0 <? nnone seg0)%nat && (0 <? span)%nat
-                   then [(qsum segw + spacing * (qnat span - 1) - w - fc_bp c) / qnat span] else []
+                   then [(qsum segw + spacing * (qnat span - 1)
+                          - Qmax (w + fc_bp c) (osum seg0 + spacing * (qnat span - 1))) / qnat span] else []
        | None => []
        end) ++ cell_bonuses W spacing init ws rest (off + span)
   end.
@@ -176,6 +179,9 @@ Definition fixed_spec_b (tol : Q) (W spacing : Q) (cols : list decl) (cells : li
   Nat.eqb n (Nat.max (length cols) (spans cells)) &&
   ((Nat.eqb n 0 && negb (Qle_bool W spacing)) || close tol W' (qsum ws + spacing * (qnat n + 1))) &&
   leq tol W W' &&
+  (* no column is negative when no declared width is *)
+  (negb (forallb (fun d => match resolve d W with Some v => Qle_bool 0 v | None => true end) cols && Qle_bool 0 spacing) ||
+   forallb (fun w => leq tol 0 w) ws) &&
   match column_bonuses W cols ws ++ cell_bonuses W spacing (fixed_init W cols cells) ws cells 0 with
   | [] => true
   | b0 :: rest => leq tol 0 b0 && forallb (close tol b0) rest && (close tol b0 0 || close tol W' W)
@@ -187,6 +193,10 @@ Definition fixed_judge_tol (tol : Q) (c : Q * Q * list decl * list fcell * optio
    (match out with Some o => if fixed_spec_b tol W spacing cols cells o then 0 else 2 | None => 2 end))%nat.
 Definition tolr : Q := 1 # 100000.
 Definition fixed_judge := fixed_judge_tol 0.
+(* direct calls: tolerance chosen per case (0 when the implementation's output is made of exact rationals; the source
+   mixes a float 0.0 into the column widths when it floors a remainder with max(0, width) / n) *)
+Definition fixed_judge_t (c : Q * (Q * Q * list decl * list fcell * option (Q * list Q))) : nat :=
+  fixed_judge_tol (fst c) (snd c).
 Definition fixed_judge_r := fixed_judge_tol tolr.
 
 Definition eps9 : Q := 1 # 1000000000.
